@@ -24,6 +24,7 @@ import (
 	"fmt"
 	"io"
 	"log"
+	"math/rand"
 	"net"
 	"os"
 	"os/exec"
@@ -54,7 +55,7 @@ func TestVerif_C35_StoreChild(t *testing.T) {
 		die(err)
 	}
 	discard := log.New(io.Discard, "", 0)
-	ln, err := net.Listen("tcp", "127.0.0.1:0")
+	ln, err := g7Listen()
 	if err != nil {
 		die(err)
 	}
@@ -204,7 +205,7 @@ func (c *child) stop() {
 // exchange sends one command on a fresh connection and returns the first
 // response frame (nil if the node closed without answering).
 func exchange(addr string, cmd *proto.Command, wait time.Duration) ([]byte, error) {
-	conn, err := net.DialTimeout("tcp", addr, 10*time.Second)
+	conn, err := g7Dial(addr)
 	if err != nil {
 		return nil, err
 	}
@@ -402,7 +403,8 @@ func TestVerif_C35_Store(t *testing.T) {
 			var err error
 			if node, err = startChild(); err != nil {
 				node = nil
-				rt.Skipf("infrastructure: %v", err)
+				rec.Label("inconclusive:infrastructure")
+				return
 			}
 		}
 		g := genCommand(rt)
@@ -450,4 +452,53 @@ func TestVerif_C35_Store(t *testing.T) {
 		}
 		rt.Fatalf("%s", rec.Violation(sig, "%s :: %s", what, desc))
 	})
+}
+
+// ---- infrastructure helpers (not part of any oracle) ----
+
+// g7Dial connects to addr from a random loopback source address 127.x.y.z.
+// Sockets of a client that closes (or half-closes) first stay in TIME_WAIT for
+// 60 s; with 127.0.0.1 as the only source address, thousands of short
+// connections per second from many check processes would leave no free port
+// for bind(127.0.0.1:0), i.e. for every new listener on the machine. Spreading
+// the client side over 127/8 keeps those sockets away from 127.0.0.1. A few
+// retries with back-off absorb transient failures.
+func g7Dial(addr string) (net.Conn, error) {
+	var last error
+	for try := 0; try < 5; try++ {
+		d := net.Dialer{Timeout: 10 * time.Second, LocalAddr: &net.TCPAddr{IP: net.IPv4(127, byte(1+rand.Intn(250)), byte(rand.Intn(256)), byte(1+rand.Intn(250)))}}
+		c, err := d.Dial("tcp", addr)
+		if err == nil {
+			return c, nil
+		}
+		last = err
+		time.Sleep(time.Duration(25*(try+1)) * time.Millisecond)
+	}
+	return nil, last
+}
+
+// g7Listen listens on 127.0.0.1:0, retrying a few times.
+func g7Listen() (net.Listener, error) {
+	var last error
+	for try := 0; try < 5; try++ {
+		ln, err := net.Listen("tcp", "127.0.0.1:0")
+		if err == nil {
+			return ln, nil
+		}
+		last = err
+		time.Sleep(time.Duration(50*(try+1)) * time.Millisecond)
+	}
+	return nil, last
+}
+
+// g7Retry runs f up to five times with a short back-off.
+func g7Retry(f func() error) error {
+	var last error
+	for try := 0; try < 5; try++ {
+		if last = f(); last == nil {
+			return nil
+		}
+		time.Sleep(time.Duration(50*(try+1)) * time.Millisecond)
+	}
+	return last
 }
